@@ -137,7 +137,7 @@ CLASSES = ["generic", "generic", "neg", "mixed", "mixed", "reorder", "near", "di
 
 
 def generate(rng, tier):
-    n_cases = 208 if tier == "quick" else 4000
+    n_cases = 160 if tier == "quick" else 2400
     Ms = _Ms(tier)
     cases = [_case(rng, CLASSES[i % len(CLASSES)], Ms) for i in range(n_cases)]
     for i, M in enumerate(Ms):          # every M of the run on a case with a non-zero first slice
@@ -344,22 +344,37 @@ Import ListNotations.
 _state = {"dirs_ok": {}}
 
 
+SLICE = 16
+
+
 def _prove_dirs(Ms):
-    """Two kernel-checked lemmas per M: the rational directions are within 1e-12 of (cos, sin)(theta_i)
-    (interval) and lie in the closed unit disc (vm_compute; premise of sw_le_2W1_partial)."""
+    """Kernel-checked lemmas per M: every rational direction is within 1e-12 of (cos, sin)(theta_i) (interval;
+    stated on consecutive slices of <= 16 directions, `dirs_ok_from start M slice`, printed from the same list
+    as D_M, so that the slices compile in parallel) and D_M lies in the closed unit disc (vm_compute; premise
+    of sw_le_2W1_partial)."""
     Ms = [M for M in Ms if M not in _state["dirs_ok"]]
     if not Ms:
         return []
-    jobs = [("dirs_%d" % M, HEADER_DIRS + _defs([M]) + "\nLemma dirs_%d_ok : dirs_ok D%d %d.\nProof. dirs_case. Qed.\n"
-             "Lemma dirs_%d_disc : forall u, In u D%d -> Persim.Proofs.SlicedP.in_disc u.\nProof. disc_case. Qed.\n" % (M, M, M, M, M))
-            for M in Ms]
+    jobs, owner = [], {}
+    for M in Ms:
+        ds = ["(%s, %s)" % (core.coq_Q(c), core.coq_Q(s_)) for c, s_ in _dirs(M)]
+        for k in range(0, M, SLICE):
+            name = "dirs_%d_%d" % (M, k)
+            body = HEADER_DIRS + "Lemma %s_ok : dirs_ok_from %d %d %s.\nProof. dirs_case. Qed.\n" % (
+                name, k, M, core.coq_list(ds[k:k + SLICE]))
+            if k == 0:
+                body += _defs([M]) + ("\nLemma dirs_%d_disc : forall u, In u D%d -> Persim.Proofs.SlicedP.in_disc u.\n"
+                                      "Proof. disc_case. Qed.\n" % (M, M))
+            jobs.append((name, body))
+            owner[name] = M
     res = core.run_coq_jobs(PID + "_dirs", jobs, timeout=600)
     probs = []
     for M in Ms:
-        ok = res["dirs_%d" % M].ok
-        _state["dirs_ok"][M] = ok
-        if not ok:
-            probs.append("direction lemma for M=%d failed: %s" % (M, (res["dirs_%d" % M].err or "")[-300:]))
+        _state["dirs_ok"][M] = True
+    for name, M in owner.items():
+        if not res[name].ok:
+            _state["dirs_ok"][M] = False
+            probs.append("direction lemma %s failed: %s" % (name, (res[name].err or "")[-300:]))
     return probs
 
 
@@ -367,7 +382,7 @@ def extra_obligations(tier):
     Ms = _Ms(tier)
     probs = _prove_dirs(Ms)
     return {"obligations": len(Ms), "discharged": sum(1 for M in Ms if _state["dirs_ok"].get(M)), "problems": probs,
-            "Ms": Ms, "direction_lemmas": ["dirs_%d_ok / dirs_%d_disc" % (M, M) for M in Ms]}
+            "Ms": Ms, "direction_lemmas": ["dirs_%d_<start>_ok (slices of %d) / dirs_%d_disc" % (M, SLICE, M) for M in Ms]}
 
 
 def _coq_dgm(X):
